@@ -50,10 +50,13 @@ def check_c13(v: Verdict, n_cfg):
 
     cases, meta = [], []
     hist = {"configs": 0, "forbid": 0, "with_default": 0, "noninjective": 0, "tag_name_collides": 0, "unstructure_obs": 0,
-            "structure_obs": 0, "roundtrips": 0, "member_outside_checks": 0, "missing_tag": 0, "unknown_tag": 0}
+            "structure_obs": 0, "roundtrips": 0, "member_outside_checks": 0, "missing_tag": 0, "unknown_tag": 0, "used_under_reordered_spelling": 0}
     for ci in range(n_cfg):
         members = rng.sample(MEMBERS, rng.randint(2, 4))
         u = Union[tuple(members)]
+        # the union is configured under one spelling and used under an equal one (members in another order): Union[A, B] == Union[B, A]
+        respell = rng.random() < 0.5
+        uq = Union[tuple(members[::-1])] if respell else u
         gen_kind, tag_gen = make_tag_gen(rng, members)
         tag_name = rng.choice(["_type", "_type", "kind", "t", "a"])
         default = rng.choice([None, None, members[0], members[-1], Outside])
@@ -61,6 +64,7 @@ def check_c13(v: Verdict, n_cfg):
         full = rng.random() < 0.7
         dv = rng.random() < 0.5
         hist["configs"] += 1
+        hist["used_under_reordered_spelling"] += respell
         hist["forbid"] += forbid
         hist["with_default"] += default is not None
         hist["noninjective"] += gen_kind == "colliding" and M0 in members and M1 in members
@@ -89,7 +93,8 @@ def check_c13(v: Verdict, n_cfg):
             "match c with " + " | ".join(f"{CID[m]}%N => {tagid(tag_gen(m))}%N" for m in CID) + " | _ => 0%N end",
             cN(intern(tag_name)), "None" if default is None else f"(Some {CID[default]}%N)", c_bool(eff_forbid)))
         desc = {"union": [m.__name__ for m in members], "tag_generator": gen_kind, "tag_name": tag_name,
-                "default": getattr(default, "__name__", None), "forbid_extra_keys": eff_forbid, "converter": "Converter" if full else "BaseConverter", "dv": dv}
+                "default": getattr(default, "__name__", None), "forbid_extra_keys": eff_forbid, "converter": "Converter" if full else "BaseConverter", "dv": dv,
+                "used_as": "Union[" + ", ".join(m.__name__ for m in (members[::-1] if respell else members)) + "]"}
         insts = []
         for m in members + [M0Sub]:
             fields = [a.name for a in (attrs.fields(m) if attrs.has(m) and not dataclasses.is_dataclass(m) else dataclasses.fields(m))]
@@ -98,7 +103,7 @@ def check_c13(v: Verdict, n_cfg):
             # ---- going out (recording hooks: correspondence; real hooks: oracle)
             md = member_dict(x)
             try:
-                out = rec.unstructure(x, unstructure_as=u)
+                out = rec.unstructure(x, unstructure_as=uq)
                 obs = "(Ok %s)" % c_pairs([(intern(k), (val if isinstance(val, int) else tagid(val))) for k, val in out.items()])
             except KeyError:
                 out, obs = None, "(Err EKey)"
@@ -115,13 +120,13 @@ def check_c13(v: Verdict, n_cfg):
                 continue
             # oracle on the real hooks
             try:
-                payload = real.unstructure(x, unstructure_as=u)
+                payload = real.unstructure(x, unstructure_as=uq)
                 own = plain.unstructure(x)
                 if tag_name not in own:
                     if set(payload) != set(own) | {tag_name} or payload[tag_name] != tag_gen(type(x)) or any(payload[k] != own[k] for k in own):
                         v.violation("tagged union payload is not the member's own dict plus exactly the tag",
                                     {"lane": "TAG/C13", **desc, "instance": repr(x), "payload": payload, "member_dict": own})
-                    back = real.structure(payload, u)
+                    back = real.structure(payload, uq)
                     hist["roundtrips"] += 1
                     if back != x or type(back) is not type(x):
                         v.violation("tagged union round trip returned another instance",
@@ -142,7 +147,7 @@ def check_c13(v: Verdict, n_cfg):
                 hist["unknown_tag"] += vname == "unknown"
                 before = dict(p)
                 try:
-                    r = rec.structure(p, u)
+                    r = rec.structure(p, uq)
                     obs = "(Ok (%s, %s))" % (cN(CID[r.cl]), c_pairs([(intern(k), (val if isinstance(val, int) else tagid(val))) for k, val in r.d.items()]))
                     robs = (r.cl.__name__, r.d)
                 except KeyError:
@@ -157,7 +162,7 @@ def check_c13(v: Verdict, n_cfg):
                 # oracle: missing / unknown tag -> default member or an error
                 if vname in ("missing", "unknown") and tag_name not in base:
                     try:
-                        got = real.structure(dict(p), u)
+                        got = real.structure(dict(p), uq)
                         if default is None or type(got) is not default:
                             v.violation("missing/unknown tag did not select the default member",
                                         {"lane": "TAG/C13", **desc, "variant": vname, "payload": before, "got": repr(got)})
